@@ -129,6 +129,27 @@ pub fn record(a: &Args) {
     let picks = if a.thorough() { 3000 } else { 40 };
     diag_family::<GaussInt<i64>>(a, 21, &mut t, &mut st, &mut cid, &|x, y| GaussInt::new(x, y), 4, picks);
     diag_family::<EisenInt<i64>>(a, 22, &mut t, &mut st, &mut cid, &|x, y| EisenInt::new(x, y), 4, picks);
+    // diagonal (and permuted-diagonal) integer matrices with three or four small composite entries: the diagonal fix-up has to
+    // merge several mutually non-dividing neighbours in one sweep; rectangular by a zero row / column half of the time
+    {
+        let mut rng = a.rng(23);
+        let pl: [i64; 8] = [2, 3, 4, 5, 6, 9, 10, 12];
+        let mut all = vec![];
+        for x in pl { for y in pl { for z in pl { all.push(vec![x, y, z]); } } }
+        for x in pl { for y in pl { all.push(vec![x, y, 4, 9]); all.push(vec![6, x, y, 10]); } }
+        { use rand::seq::SliceRandom; all.shuffle(&mut rng); }
+        let picks = if a.thorough() { all.len() } else { 70 };
+        for (k, d) in all.into_iter().take(picks).enumerate() {
+            cid += 1; st.cases += 1;
+            let r = d.len();
+            let (m, n) = match k % 4 { 0 => (r, r), 1 => (r + 1, r), 2 => (r, r + 1), _ => (r, r) };
+            let (pr, pc) = if k % 3 == 0 { ((0..m).collect::<Vec<_>>(), (0..n).collect::<Vec<_>>()) } else { (rand_perm(&mut rng, m), rand_perm(&mut rng, n)) };
+            let mut data = vec![0i64; m * n];
+            for i in 0..r { data[pr[i] * n + pc[i]] = if (k + i) % 5 == 0 { -d[i] } else { d[i] }; }
+            if k % 2 == 0 { run_matrix::<i64>(&mut rng, &mut t, &mut st, cid, &Mat::from_data((m, n), data.iter().cloned()), true); }
+            else { run_matrix::<BigInt>(&mut rng, &mut t, &mut st, cid, &Mat::from_data((m, n), data.iter().map(|x| BigInt::from(*x))), false); }
+        }
+    }
     let n = t.finish();
     summary("record", json!({"events": n, "cases": st.cases, "panics": st.panics, "timeouts": st.timeouts, "machine_overflows_outside_envelope": st.outside, "max_entry_digits": st.maxdigits,
         "zero_dimensional_cases": st.zero_dim, "rank_deficient_cases": st.rank_deficient, "types": ["i64","BigInt","Ratio<i64>","FF<3>","FF<5>","GaussInt<i64>","GaussInt<BigInt>","EisenInt<i64>","EisenInt<BigInt>","Poly<x,FF<3>>","Poly<x,Ratio<i64>>"]}));
